@@ -1296,8 +1296,76 @@ def inline_new_helpers(tree, modshort):
         return 0
     n = _Inliner(tree, modshort, inv).run()
     if n:
+        for fn in ast.walk(tree):
+            if isinstance(fn, (ast.FunctionDef, ast.AsyncFunctionDef)):
+                _coalesce_copies(fn)
         ast.fix_missing_locations(tree)
     return n
+
+
+def _coalesce_copies(fn):
+    """After a helper that returns a tuple was inlined the caller holds
+    `a, b, c = (x, y, z)` with plain names on both sides: the renaming the
+    call performed.  Where x is used only before that statement and a only
+    after it, x is renamed to a throughout and the pair is dropped, so that
+    rules which derive the role of a local from where it is published see
+    one name for one value."""
+    body = fn.body
+
+    def names_in(stmts, ctxs=(ast.Load, ast.Store, ast.Del)):
+        out = {}
+        for st in stmts:
+            for x in ast.walk(st):
+                if isinstance(x, ast.Name) and isinstance(x.ctx, ctxs):
+                    out[x.id] = out.get(x.id, 0) + 1
+                if isinstance(x, ast.ExceptHandler) and x.name:
+                    out[x.name] = out.get(x.name, 0) + 1
+        return out
+    params = {a.arg for a in fn.args.posonlyargs + fn.args.args +
+              fn.args.kwonlyargs}
+    i = 0
+    while i < len(body):
+        st = body[i]
+        if not (isinstance(st, ast.Assign) and len(st.targets) == 1 and
+                isinstance(st.targets[0], ast.Tuple) and
+                isinstance(st.value, ast.Tuple) and
+                len(st.targets[0].elts) == len(st.value.elts) and
+                all(isinstance(e, ast.Name) for e in st.targets[0].elts) and
+                all(isinstance(e, ast.Name) for e in st.value.elts)):
+            i += 1
+            continue
+        before = names_in(body[:i])
+        after = names_in(body[i + 1:])
+        tg = [e.id for e in st.targets[0].elts]
+        sr = [e.id for e in st.value.elts]
+        keep_t, keep_s = [], []
+        ren = {}
+        for t, s_ in zip(tg, sr):
+            if t == s_:
+                continue
+            ok = t not in before and s_ not in after and t not in params \
+                and s_ not in params and sr.count(s_) == 1 and \
+                tg.count(t) == 1 and s_ not in tg and t not in sr
+            if ok:
+                ren[s_] = t
+            else:
+                keep_t.append(t)
+                keep_s.append(s_)
+        if not ren:
+            i += 1
+            continue
+        for prev in body[:i]:
+            for x in ast.walk(prev):
+                if isinstance(x, ast.Name) and x.id in ren:
+                    x.id = ren[x.id]
+        if keep_t:
+            st.targets[0].elts = [ast.Name(id=t, ctx=ast.Store())
+                                  for t in keep_t]
+            st.value.elts = [ast.Name(id=s_, ctx=ast.Load())
+                             for s_ in keep_s]
+            i += 1
+        else:
+            del body[i]
 
 
 # ------------------------------------------------------------------ N3
